@@ -667,3 +667,61 @@ def check_b(prog, rep, cfg):
     rep.analysed["panic_sites_auto_verified"] = auto_n
     rep.analysed["panic_sites_reviewed"] = reviewed_n
     return sites
+
+
+def unsaturated_counter_arith(prog, adt, fields, crates=("pasfmt",)):
+    """`+` / `*` (checked-in-debug, wrapping-in-release arithmetic) on a narrow integer one of whose operands is read from one of the counter
+    fields `fields` of `adt`: [(body, where, operator, canonical operands)].  Such counters are filled with saturating conversions, so
+    they can hold the type's maximum; only max / min / saturating_* / widening casts may combine them."""
+    from table import canon_operand
+    out = []
+    for b in prog.bodies.values():
+        if not any(b.crate.startswith(c) for c in crates) or "::tests::" in b.npath or "core::fmt::Debug" in b.npath:
+            continue
+        for bb, i, st in b.stmts():
+            if st["k"] != "assign" or st["rv"]["k"] != "binop":
+                continue
+            op = st["rv"]["op"].replace("WithOverflow", "").replace("Unchecked", "")
+            if op not in ("Add", "Mul"):
+                continue
+            texts = [canon_operand(b, st["rv"][k], {}) for k in ("a", "b")]
+            tys = set()
+            for k in ("a", "b"):
+                o = st["rv"][k]
+                if o["k"] in ("copy", "move"):
+                    tys.add(b.local_ty(o["place"]["l"]) if not o["place"]["p"] else str(o["place"]["p"][-1].get("ty")))
+                else:
+                    tys.add(o.get("ty"))
+            if not (tys & {"u8", "u16", "i8", "i16"}):
+                continue
+            # an operand that is the field itself (not a value computed from it by max / min / a cast)
+            hit = [t for t in texts if any(t.endswith("." + f) for f in fields)]
+            reads = False
+            for k in ("a", "b"):
+                o = st["rv"][k]
+                if o["k"] in ("copy", "move"):
+                    from facts import Origins as _Og
+                    for x in _Og(b).of_operand(o):
+                        if x[0] in ("field", "place") and any(str(x[-1]).endswith(f) for f in fields):
+                            reads = True
+            if hit or reads:
+                out.append((b, "%s:%d" % (b.file, abs(st.get("line", 0))), op, texts))
+    return out
+
+
+FD_COUNTERS = ("spaces_before", "newlines_before", "indentations_before", "continuations_before")
+
+
+def check_g(prog, rep):
+    """C04.g — "never aborts with an internal error": the layout counters of FormattingData are u16 values filled with saturating conversions
+    (a gap of 65535 blanks or line breaks is stored as 65535), so they are combined only with operations that cannot overflow: max, min,
+    saturating_*, comparisons, or after widening.  A plain `+` / `*` on two of them panics in a build with overflow checks and wraps to a
+    small number without them (a wrapped gap of 0 glues two tokens together)."""
+    R = "C04.g"
+    sites = unsaturated_counter_arith(prog, "pasfmt_core::lang::FormattingData", FD_COUNTERS)
+    rep.check(not sites, R, "counters-combined-without-overflow",
+              "a layout counter of FormattingData (a saturated u16) is an operand of a plain `%s` in %s (%s): with a gap of 65535 blanks / line breaks in the input the sum overflows — "
+              "a panic with overflow checks, a wrapped (small) count without them" % ((sites[0][2], short(sites[0][0].npath), " , ".join(t[:50] for t in sites[0][3])) if sites else ("", "", "")),
+              where=sites[0][1] if sites else None, instance={"sites": len(sites)})
+    n = sum(1 for b in prog.bodies.values() if b.crate.startswith("pasfmt") for a in [0] if any(f in str(s_) for _, _, s_ in b.stmts() for f in ("spaces_before",)))
+    rep.floor(R, "bodies that mention the layout counters", n, 5)
